@@ -23,6 +23,7 @@ type MineOpts struct {
 	Txs         []*lpb.Transaction
 	SecondAward bool
 	AwardAmount string
+	NoAward     bool // the block carries no award of its own (an adversarial Txs[0] poses as it)
 }
 
 // ErrStateBehind is returned when the node's state is not at the ledger tip.
@@ -49,7 +50,9 @@ func (n *Node) PackBlock(o MineOpts) (*lpb.InternalBlock, error) {
 	if err != nil {
 		return nil, err
 	}
-	txs = append(txs, award)
+	if !o.NoAward {
+		txs = append(txs, award)
+	}
 	if o.SecondAward {
 		a2, _ := tx.GenerateAwardTx(p.Addr, amount, []byte("award2"))
 		txs = append(txs, a2)
